@@ -160,3 +160,9 @@ def no_read_skipped(O):
 def expected_column(O):
     from . import C06
     C06.build_indices(dri.WithRep(O, rep()), "Virtual")
+
+
+@obligation("C14/one-context", desc="next / handle_io: the context the answer is installed in (set_outputs) is the context the "
+            "extraction evaluates virtual signals against, and the one rows are evaluated in - the iterator's own `ctx`")
+def one_context(O):
+    dri.one_context(O, rep())
